@@ -411,10 +411,10 @@ type vShape struct {
 	ulist, ulab int
 }
 
-func (sh *vShape) set(t string, dst *[verifNL]bool) {
+func (sh *vShape) set(t string, dst *[verifNL]bool, forbidden [verifNL]bool) {
 	for l := 0; l < verifNL; l++ {
 		dst[l] = false
-		if l < sh.ulist {
+		if l < sh.ulist && !forbidden[l] {
 			dst[l] = sh.sc.flag(t + verifItoa(l))
 		}
 	}
@@ -439,13 +439,18 @@ func (sh *vShape) pick(n *vNode) {
 		}
 	case 'A':
 		n.cwithout = sh.sc.flag(t + "without")
-		sh.set(t+"grp", &n.cgrp)
+		sh.set(t+"grp", &n.cgrp, [verifNL]bool{})
 	case 'B':
 		if n.vectorBinary() {
 			n.con = sh.sc.flag(t + "on")
-			sh.set(t+"ml", &n.cml)
+			sh.set(t+"ml", &n.cml, [verifNL]bool{})
 			if n.card != vCardOne {
-				sh.set(t+"inc", &n.cinc)
+				// the PromQL parser rejects a label that occurs in on(...) and in group_x(...) at once
+				var forbidden [verifNL]bool
+				if n.con {
+					forbidden = n.cml
+				}
+				sh.set(t+"inc", &n.cinc, forbidden)
 			}
 		}
 	}
@@ -547,6 +552,9 @@ func verifAST(n *vNode) promParser.Expr {
 			if vs, ok := arg.(*promParser.VectorSelector); ok {
 				marg = &promParser.MatrixSelector{VectorSelector: vs, Range: 300e9}
 			} else {
+				if _, isBin := arg.(*promParser.BinaryExpr); isBin {
+					arg = &promParser.ParenExpr{Expr: arg} // what the parser builds for (x op y)[5m:1m]
+				}
 				marg = &promParser.SubqueryExpr{Expr: arg, Range: 300e9}
 			}
 			return &promParser.Call{
@@ -955,7 +963,7 @@ func verifRealAST(n *vNode) promParser.Expr {
 			case *promParser.MatrixSelector:
 				x.VectorSelector = arg
 			case *promParser.SubqueryExpr:
-				x.Expr = arg
+				x.Expr = &promParser.ParenExpr{Expr: arg}
 				x.Step = 60e9
 			default:
 				c.Args[0] = arg
@@ -964,6 +972,11 @@ func verifRealAST(n *vNode) promParser.Expr {
 		default:
 			b := verifAST(n).(*promParser.BinaryExpr)
 			b.LHS, b.RHS = &promParser.ParenExpr{Expr: verifRealAST(n.l)}, &promParser.ParenExpr{Expr: verifRealAST(n.r)}
+			if vm := b.VectorMatching; vm != nil && !vm.On && len(vm.MatchingLabels) == 0 && (vm.Card == promParser.CardManyToOne || vm.Card == promParser.CardOneToMany) {
+				// `ignoring() group_x(...)`: the PromQL printer drops an empty ignoring() and with it the group modifier;
+				// ignoring a label that no series has is the same query and prints
+				vm.MatchingLabels = []string{"zz"}
+			}
 			e = b
 		}
 		n.cwithout, n.cgrp, n.con, n.cml, n.cinc = save.cwithout, save.cgrp, save.con, save.cml, save.cinc
